@@ -225,6 +225,19 @@ func (b *RedisBackend) Put(path string, data []byte) error {
 	return err
 }
 
+// Remove data at given path.
+func (b *RedisBackend) Remove(path string) error {
+	path = b.keyPath(path)
+	removed, err := b.redis.Del(path).Result()
+	if err == nil && removed == 0 {
+		err = api.ErrNotExist
+	}
+	if err != nil {
+		b.log.WithError(err).WithField("path", path).Debug("Failed to remove key data")
+	}
+	return err
+}
+
 // ListAll enumerates all paths currently stored.
 // The paths are returned in lexicographical order.
 func (b *RedisBackend) ListAll() ([]string, error) {
